@@ -54,6 +54,14 @@ theorem iterate_mem {n : Int} {body : Int → Option (List Int)} {parts : List (
     have : k < n.toNat := by simpa using hk
     exact ⟨k, by omega, by omega, hb⟩
 
+theorem checkedPart_some {p : Option (List Int)} {k : Option Int} {q : List Int} (h : checkedPart p k = some q) : p = some q := by
+  unfold checkedPart at h
+  split at h
+  · split at h
+    · simp only [Option.some.injEq] at h; rw [h]
+    · simp at h
+  · simp at h
+
 theorem scalarOf_some {o : Option (List Int)} {n : Int} (h : scalarOf o = some n) : o = some [n] := by
   cases o with
   | none => simp [scalarOf] at h
@@ -93,43 +101,52 @@ theorem agree_setLoop {ρ ρ' : Env} {id : Nat} {l : List Dep} (h : ∀ d ∈ l.
       have hj : j ≠ id := fun e => hdl (by rw [e])
       simpa [Agree, Env.setLoop, hj] using this
 
-theorem eval_congr (e : Expr) : ∀ (ρ ρ' : Env), (∀ d ∈ deps e, Agree ρ ρ' d) → eval e ρ = eval e ρ' := by
+theorem eval_congr (e : Expr) : ∀ (ρ ρ' : Env), (∀ d ∈ depsAll e, Agree ρ ρ' d) → eval e ρ = eval e ρ' := by
   induction e with
   | const s vals => intro ρ ρ' _; rfl
   | argS name lo hi =>
     intro ρ ρ' h
-    have := h (.arg name) (by simp [deps]); simp only [Agree] at this
+    have := h (.arg name) (by simp [depsAll]); simp only [Agree] at this
     simp only [eval, this]
   | argV name lo hi len ih =>
     intro ρ ρ' h
-    have := h (.arg name) (by simp [deps]); simp only [Agree] at this
-    simp only [eval, this, ih ρ ρ' (fun d hd => h d (by simp [deps, hd]))]
+    have := h (.arg name) (by simp [depsAll]); simp only [Agree] at this
+    simp only [eval, this, ih ρ ρ' (fun d hd => h d (by simp [depsAll, hd]))]
   | loopIndex id len ih =>
     intro ρ ρ' h
-    have := h (.loop id) (by simp [deps]); simp only [Agree] at this
-    simp only [eval, this, ih ρ ρ' (fun d hd => h d (by simp [deps, hd]))]
+    have := h (.loop id) (by simp [depsAll]); simp only [Agree] at this
+    simp only [eval, this, ih ρ ρ' (fun d hd => h d (by simp [depsAll, hd]))]
   | neg a ih | abs a ih | sign a ih | range a ih =>
     intro ρ ρ' h
-    simp only [eval, ih ρ ρ' (fun d hd => h d (by simpa [deps] using hd))]
+    simp only [eval, ih ρ ρ' (fun d hd => h d (by simpa [depsAll] using hd))]
   | add a b iha ihb | mul a b iha ihb | floordiv a b iha ihb | mod a b iha ihb | min a b iha ihb | max a b iha ihb
   | inRange a b iha ihb | normDim a b iha ihb | insertAxis a b iha ihb | take a b iha ihb | sum a b iha ihb | sizesToOffsets a b iha ihb =>
     intro ρ ρ' h
-    simp only [eval, iha ρ ρ' (fun d hd => h d (by simp [deps, hd])), ihb ρ ρ' (fun d hd => h d (by simp [deps, hd]))]
+    simp only [eval, iha ρ ρ' (fun d hd => h d (by simp [depsAll, hd])), ihb ρ ρ' (fun d hd => h d (by simp [depsAll, hd]))]
   | ravelIndex a b c iha ihb ihc =>
     intro ρ ρ' h
-    simp only [eval, iha ρ ρ' (fun d hd => h d (by simp [deps, hd])), ihb ρ ρ' (fun d hd => h d (by simp [deps, hd])),
-      ihc ρ ρ' (fun d hd => h d (by simp [deps, hd]))]
-  | loopSum id len body ihl ihb | loopConcat id len body ihl ihb =>
+    simp only [eval, iha ρ ρ' (fun d hd => h d (by simp [depsAll, hd])), ihb ρ ρ' (fun d hd => h d (by simp [depsAll, hd])),
+      ihc ρ ρ' (fun d hd => h d (by simp [depsAll, hd]))]
+  | loopSum id len body ihl ihb =>
     intro ρ ρ' h
     have hb : ∀ i, eval body (ρ.setLoop id i) = eval body (ρ'.setLoop id i) := fun i =>
-      ihb _ _ (agree_setLoop (fun d hd => h d (by simp only [deps, List.mem_append]; exact Or.inr hd)) i)
-    simp only [eval, ihl ρ ρ' (fun d hd => h d (by simp [deps, hd])), hb]
+      ihb _ _ (agree_setLoop (fun d hd => h d (by simp only [depsAll, List.mem_append]; exact Or.inr hd)) i)
+    simp only [eval, ihl ρ ρ' (fun d hd => h d (by simp [depsAll, hd])), hb]
+  | loopConcat id len body blen ihl ihb ihk =>
+    intro ρ ρ' h
+    have hag : ∀ i, ∀ d ∈ depsAll body ++ depsAll blen, Agree (ρ.setLoop id i) (ρ'.setLoop id i) d := fun i =>
+      agree_setLoop (fun d hd => h d (by simp only [depsAll, List.mem_append]; exact Or.inr hd)) i
+    have hb : ∀ i, eval body (ρ.setLoop id i) = eval body (ρ'.setLoop id i) := fun i =>
+      ihb _ _ (fun d hd => hag i d (by simp [hd]))
+    have hk : ∀ i, eval blen (ρ.setLoop id i) = eval blen (ρ'.setLoop id i) := fun i =>
+      ihk _ _ (fun d hd => hag i d (by simp [hd]))
+    simp only [eval, ihl ρ ρ' (fun d hd => h d (by simp [depsAll, hd])), hb, hk]
 
 /-- a node without announced arguments evaluates to the same value in every environment -/
-theorem eval_closed {e : Expr} (h : (deps e).isEmpty = true) (ρ : Env) : eval e ρ = eval e Env.empty := by
+theorem eval_closed {e : Expr} (h : (depsAll e).isEmpty = true) (ρ : Env) : eval e ρ = eval e Env.empty := by
   apply eval_congr
   intro d hd
-  have : deps e = [] := by simpa using h
+  have : depsAll e = [] := by simpa using h
   rw [this] at hd; simp at hd
 
 /-! ### every inferred range passed the validation -/
@@ -198,7 +215,7 @@ theorem default_sound (e : Expr) {ρ : Env} {v : List Int} {r : Rng} (hv : eval 
   unfold defaultBounds at h0
   split at h0
   · rename_i hc
-    have hcl : (deps e).isEmpty = true := by
+    have hcl : (depsAll e).isEmpty = true := by
       simp only [Bool.and_eq_true] at hc; exact hc.2
     rw [eval_closed hcl ρ] at hv
     rw [hv] at h0
@@ -504,7 +521,7 @@ theorem intbounds_sound_expr (e : Expr) : IH e := by
     intro ρ v r hv hb
     simp only [bounds] at hb
     exact default_sound _ hv hb
-  | loopConcat id len body _ ihb =>
+  | loopConcat id len body blen _ ihb _ =>
     intro ρ v r hv hb
     simp only [eval] at hv
     split at hv
@@ -519,7 +536,7 @@ theorem intbounds_sound_expr (e : Expr) : IH e := by
         intro x hx
         obtain ⟨p, hp, hxp⟩ := List.mem_flatten.1 hx
         obtain ⟨i, _, _, hbi⟩ := iterate_mem hparts p hp
-        exact ihb _ p rb hbi hrb x hxp
+        exact ihb _ p rb (checkedPart_some hbi) hrb x hxp
       · simp at hv
     · simp at hv
 
